@@ -36,6 +36,34 @@ fn loc_ok(lines: &[usize], row: usize, col: usize) -> bool {
   col <= lines[row - 1] + 2
 }
 
+/// bodies of the fences whose info string names Mech code (the parser's rule: the text after the opening line up to the next occurrence of the sigil)
+pub fn mech_fence_bodies(text: &str) -> Vec<String> {
+  let mut out = vec![];
+  let t = text.replace("\r\n", "\n");
+  let mut pos = 0usize;
+  while pos < t.len() {
+    let line_end = t[pos..].find('\n').map(|p| pos + p).unwrap_or(t.len());
+    let line = &t[pos..line_end];
+    let l = line.trim_start_matches(|c| c == ' ' || c == '\t');
+    let sig = if l.starts_with("```") { Some("```") } else if l.starts_with("~~~") { Some("~~~") } else { None };
+    if let (Some(sig), true) = (sig, line_end < t.len()) {
+      let info = l[3..].split('{').next().unwrap_or("").trim();
+      let body_start = line_end + 1;
+      match t[body_start..].find(sig) {
+        Some(p) => {
+          if info.starts_with("mech") || info.starts_with("mec") || info.starts_with("🤖") { out.push(t[body_start..body_start + p].to_string()); }
+          let after = body_start + p + 3;
+          pos = t[after..].find('\n').map(|q| after + q + 1).unwrap_or(t.len());
+          continue;
+        }
+        None => break,
+      }
+    }
+    pos = line_end + 1;
+  }
+  out
+}
+
 /// parse twice, check determinism and every range of an error report
 pub fn observe(text: &str) -> Obs {
   let mut problems = vec![];
@@ -53,6 +81,23 @@ pub fn observe(text: &str) -> Obs {
   let (k2, d2) = render(&r2);
   if k1 == "panic" { let m = match r1 { Err(p) => panic_msg(p), _ => String::new() }; problems.push(("panic".into(), m.chars().take(160).collect())); return Obs { kind: k1, digest: 0, problems }; }
   if k1 != k2 || d1 != d2 { problems.push(("nondeterministic".into(), "two parses of the same text in one process differ".into())); }
+  // "a syntax tree that accounts for the entire input": the body of every Mech code fence is parsed by a nested parser; the tree must
+  // not silently leave out what that parser could not read. The same nested parser is run on each fence body (found by a textual scan;
+  // judged only when the scan and the tree agree on the number of Mech fences) and must consume it to its end.
+  if let Ok(Ok(tree)) = &r1 {
+    let bodies = mech_fence_bodies(text);
+    if !bodies.is_empty() && d1.matches("FencedMechCode(").count() == bodies.len() {
+      let _ = tree;
+      for b in bodies {
+        let gs = mech_syntax::graphemes::init_source(&b);
+        let ps = mech_syntax::ParseString::new(&gs);
+        if let Ok(Ok((rest, _))) = catch_unwind(AssertUnwindSafe(|| mech_syntax::parser::mech_code(ps))) {
+          let left: String = rest.graphemes[rest.cursor..].concat();
+          if !left.trim().is_empty() { problems.push(("tree-omits-input".into(), format!("the tree holds a Mech fence whose body was read only up to {:?}; the rest is in no node and no error is reported", left.trim().chars().take(60).collect::<String>()))); }
+        }
+      }
+    }
+  }
   if let Ok(Err(e)) = &r1 {
     // lines of text + "\n" in graphemes (the parser appends one newline)
     let gs = mech_syntax::graphemes::init_source(text);
